@@ -149,6 +149,9 @@ def run(ctx):
     k_ok = not (set(dl) & gu.assume({"self.delete_shelf": False}).reachable_from_entry())
     ctx.check("S5-delete-after-apply", whereu, k_ok, "delete_shelf is reached only when self.delete_shelf is set")
     fa_ = repo.func(UI, "Unshelver.from_args")
+    kc = [c for c in calls_in(fa_) if norm(c.func) in ("klass", "cls") and len(c.args) >= 7 and all(isinstance(a, ast.Name) for a in c.args[3:7])]
+    ctx.require(len(kc) == 1, f"{UI}:Unshelver.from_args: constructor call not found")
+    fa_ = canonicalise(fa_, {"apply_changes": kc[0].args[3].id, "delete_shelf": kc[0].args[4].id, "read_shelf": kc[0].args[5].id, "show_diff": kc[0].args[6].id})
     table = {}
     cur = None
     for n in ast.walk(fa_):
